@@ -380,6 +380,83 @@ __CPROVER_ensures((ra == g_ra && a == g_a) ==> __CPROVER_return_value == g_data_
                                       || (g_ra == ra && g_a == a && g_rb == rb && g_b >= a + FN(self) / 2 - self->half_fan_size && g_b < b)) ? 1 : 0)) \
   __CPROVER_decreases(a + FN(self) / 2 + self->half_fan_size + 1 - b)
 
+/* ---- make_block_data(BlockData3D&, const FanProjData&): the accumulation loops ----
+   Every pair of the fan data's stored half (rb >= ra, b in the fan of a) is added exactly once, and to the block cell named by the four
+   quotients (ra/Ca, a/Ct, rb/Ca, b/Ct); nothing is added from another element. Ghost pair (g_ra,g_a,g_rb,g_b); Ca, Ct job constants. */
+int g_blk_bad;
+#define BLK_FILL0() __CPROVER_assert(g_acc == 0, "block sums are zeroed before anything is added")
+#define BLK_ACCUM(i0, i1, i2, i3, mra, ma, mrb, mb)                                                                   \
+  do                                                                                                                  \
+    {                                                                                                                 \
+      __CPROVER_assert((mra) == ra && (ma) == a && (mrb) == rb && (mb) == b, "the element added is the loop's own pair"); \
+      if (ra == g_ra && a == g_a && rb == g_rb && b == g_b)                                                            \
+        {                                                                                                             \
+          ++g_acc;                                                                                                    \
+          if (!((i0) == g_ra / C20_CA && (i1) == g_a / C20_CT && (i2) == g_rb / C20_CA && (i3) == g_b / C20_CT)) g_blk_bad = 1; \
+        }                                                                                                             \
+    }                                                                                                                 \
+  while (0)
+#define BLK_RB_HI(r_) ((r_) + self->max_ring_diff < self->num_rings - 1 ? (r_) + self->max_ring_diff : self->num_rings - 1)
+#define BLK_PARTNER_IN (g_rb >= g_ra && g_rb <= BLK_RB_HI(g_ra) && g_b >= g_a + FN(self) / 2 - self->half_fan_size && g_b <= g_a + FN(self) / 2 + self->half_fan_size)
+#ifdef CANARY_K_make_block_data
+#define BLK_POST(x) (!(x))
+#else
+#define BLK_POST(x) (x)
+#endif
+#define CONTRACT_K_make_block_data                                                                                    \
+  __CPROVER_requires(__CPROVER_is_fresh(self, sizeof(*self)) && FAN_VALID(self) && G_BOUNDED && g_b > -100000 && g_b < 100000 && g_acc == 0 && g_blk_bad == 0) \
+  __CPROVER_requires(num_axial_crystals_per_block == C20_CA && num_transaxial_crystals_per_block == C20_CT)            \
+  __CPROVER_assigns(g_acc, g_blk_bad)                                                                                  \
+  __CPROVER_ensures(BLK_POST(g_acc == ((EFF_GA_IN && BLK_PARTNER_IN) ? 1 : 0) && g_blk_bad == 0))
+#define LC_K_make_block_data_0                                                                                        \
+  __CPROVER_assigns(ra, g_acc, g_blk_bad)                                                                              \
+  __CPROVER_loop_invariant(ra >= 0 && ra <= self->num_rings && g_blk_bad == 0)                                         \
+  __CPROVER_loop_invariant(g_acc == ((EFF_DONE_RA(ra) && BLK_PARTNER_IN) ? 1 : 0))                                     \
+  __CPROVER_decreases(self->num_rings - ra)
+#define LC_K_make_block_data_1                                                                                        \
+  __CPROVER_assigns(a, g_acc, g_blk_bad)                                                                               \
+  __CPROVER_loop_invariant(a >= 0 && a <= FN(self) && g_blk_bad == 0)                                                  \
+  __CPROVER_loop_invariant(g_acc == ((EFF_DONE_A(ra, a) && BLK_PARTNER_IN) ? 1 : 0))                                   \
+  __CPROVER_decreases(FN(self) - a)
+#define LC_K_make_block_data_2                                                                                        \
+  __CPROVER_assigns(rb, g_acc, g_blk_bad)                                                                              \
+  __CPROVER_loop_invariant(rb >= ra && rb <= BLK_RB_HI(ra) + 1 && g_blk_bad == 0)                                      \
+  __CPROVER_loop_invariant(g_acc == (((EFF_DONE_A(ra, a) && BLK_PARTNER_IN) || (g_ra == ra && g_a == a && g_rb >= ra && g_rb < rb && EFF_B_IN)) ? 1 : 0)) \
+  __CPROVER_decreases(BLK_RB_HI(ra) + 1 - rb)
+#define LC_K_make_block_data_3                                                                                        \
+  __CPROVER_assigns(b, g_acc, g_blk_bad)                                                                               \
+  __CPROVER_loop_invariant(b >= a + FN(self) / 2 - self->half_fan_size && b <= a + FN(self) / 2 + self->half_fan_size + 1 && g_blk_bad == 0) \
+  __CPROVER_loop_invariant(g_acc == (((EFF_DONE_A(ra, a) && BLK_PARTNER_IN) || (g_ra == ra && g_a == a && g_rb >= ra && g_rb < rb && EFF_B_IN) \
+                                      || (g_ra == ra && g_a == a && g_rb == rb && g_b >= a + FN(self) / 2 - self->half_fan_size && g_b < b)) ? 1 : 0)) \
+  __CPROVER_decreases(a + FN(self) / 2 + self->half_fan_size + 1 - b)
+
+/* ---- FanProjData::sum(ra, a): the fan sum of one detector reads every partner (rb, b) of the fan exactly once, at (ra, a, rb, b mod N) ---- */
+#define SUM_ACCUM(mra, ma, mrb, mb)                                                                                   \
+  do                                                                                                                  \
+    {                                                                                                                 \
+      __CPROVER_assert((mra) == ra && (ma) == a && (mrb) == rb && (mb) == b % FN(self), "the element summed is the loop's own pair, second detector reduced modulo N"); \
+      if (rb == g_rb && b == g_b) ++g_acc;                                                                             \
+    }                                                                                                                 \
+  while (0)
+#define SUM_RB_LO (ra - self->max_ring_diff > 0 ? ra - self->max_ring_diff : 0)
+#define SUM_IN (g_rb >= SUM_RB_LO && g_rb <= BLK_RB_HI(ra) && g_b >= a + FN(self) / 2 - self->half_fan_size && g_b <= a + FN(self) / 2 + self->half_fan_size)
+#define CONTRACT_K_fan_sum                                                                                            \
+  __CPROVER_requires(__CPROVER_is_fresh(self, sizeof(*self)) && FAN_VALID(self) && ra >= 0 && ra < self->num_rings && a >= 0 && a < FN(self)) \
+  __CPROVER_requires(g_rb > -100000 && g_rb < 100000 && g_b > -100000 && g_b < 100000 && g_acc == 0)                   \
+  __CPROVER_assigns(g_acc)                                                                                             \
+  __CPROVER_ensures(g_acc == (SUM_IN ? 1 : 0))
+#define LC_K_fan_sum_0                                                                                                \
+  __CPROVER_assigns(rb, g_acc)                                                                                         \
+  __CPROVER_loop_invariant(rb >= SUM_RB_LO && rb <= BLK_RB_HI(ra) + 1)                                                 \
+  __CPROVER_loop_invariant(g_acc == ((g_rb >= SUM_RB_LO && g_rb < rb && g_b >= a + FN(self) / 2 - self->half_fan_size && g_b <= a + FN(self) / 2 + self->half_fan_size) ? 1 : 0)) \
+  __CPROVER_decreases(BLK_RB_HI(ra) + 1 - rb)
+#define LC_K_fan_sum_1                                                                                                \
+  __CPROVER_assigns(b, g_acc)                                                                                          \
+  __CPROVER_loop_invariant(b >= a + FN(self) / 2 - self->half_fan_size && b <= a + FN(self) / 2 + self->half_fan_size + 1) \
+  __CPROVER_loop_invariant(g_acc == (((g_rb >= SUM_RB_LO && g_rb < rb && g_b >= a + FN(self) / 2 - self->half_fan_size && g_b <= a + FN(self) / 2 + self->half_fan_size) \
+                                      || (g_rb == rb && g_b >= a + FN(self) / 2 - self->half_fan_size && g_b < b)) ? 1 : 0))   \
+  __CPROVER_decreases(a + FN(self) / 2 + self->half_fan_size + 1 - b)
+
 /* ---- FanProjData range accessors: the loop bounds of every apply_* / iterate_* / make_*_data function ----
    The stored index ranges (constructor kernel K_fan_ctor): level 0 [0,R-1]; level 1 [0,N-1]; level 2 of (ra,a): [ra, min(ra+D,R-1)];
    level 3 of (ra,a,rb): [a+N/2-h, a+N/2+h]. RNGk reads a stored range (index arguments must be inside the level above).
